@@ -350,7 +350,7 @@ impl Sc {
         if *wrong {
           match self.rng.below(3) {
             0 => c.push(0),
-            1 => c = Rune(name + 1).commitment(),
+            1 => c = Rune(name.wrapping_add(1)).commitment(),
             _ => {
               c.pop();
             }
